@@ -311,3 +311,28 @@ package stringlib
 //@   modifies everything()
 //@   exits any
 //@   assert_before_call fill: $c == 0 && $n == old(p.optSize) - 8
+
+// ---------------------------------------------------------------------------
+// C04: string.format and string.unpack stay inside their arguments
+// ---------------------------------------------------------------------------
+// Format: every conversion consumes a value only after checking that one is
+// left, a format string ending inside a conversion is an error, and the
+// rewritten format has the length of the original - no index or slice
+// expression in Format can go out of range, for all format strings and values.
+//@ func Format
+//@   prop C04
+//@   arith int
+//@   requires t != nil && t.Runtime != nil && len(values) <= 1000000000
+//@   modifies everything()
+//@   exits ContextTerminationError
+//@   loop 1: invariant 0 <= i && i <= len(format) && 0 <= j && j <= len(args) && len(args) == len(values) && len(outFormat) == len(format)
+//@   loop 2: invariant 0 <= i && i <= len(format) && 0 <= j && j <= len(args) && len(args) == len(values) && len(outFormat) == len(format) && 0 <= prec && prec < 100 && 0 <= length && length < 100
+
+// readStr: the announced length is checked against what is left of the packed
+// string before it is allocated (no negative or oversized make).
+//@ func (*unpacker).readStr
+//@   prop C04
+//@   arith int
+//@   requires u != nil && 0 <= u.j && u.j <= len(u.pack) && len(u.pack) <= 140737488355328   // (2^47: the amd64 user address space)
+//@   modifies everything()
+//@   exits ContextTerminationError
